@@ -451,6 +451,23 @@ func determStream(r *Run) {
 			}
 		}
 	}
+	// undefined filters whose names are one edit away from several defined ones: the error (kind AND text) is part of
+	// the result and must not depend on the order in which a table of filters is walked
+	for _, src := range []string{"{{ 'a' | xstrip }}", "{{ 'a' | slize: 1 }}", "{{ 'a' | url_code }}", "{{ 1 | pluss: 2 }}", "{{ 'a' | uppcase }}", "{{ 'a' | sizes }}",
+		"{{ 'a' | lstripp | rstrp }}", "{% assign x = 'a' | jon %}", "{% if 'a' | sise %}{% endif %}", "{% xtag %}", "{% endfoo %}", "{{ 'a' | sort_naturel }}", "{{ 1 | mins: 1 }}"} {
+		if !r.Mine() {
+			continue
+		}
+		env := map[string]*V{}
+		cl := "determ " + engineCfg{}.Enc() + " " + hexField(src) + " " + EncEnv(env)
+		g := NewRNG(r.Seed, "determ/near-miss/"+src)
+		var res string
+		for k := 0; k < 8; k++ { // eight rounds of variants: a tie left to a map's order shows in a few renders
+			res = determCase(r, engineCfg{}, src, env, cl, g, false)
+		}
+		r.Count("near-miss-names")
+		r.Emit(cl, res)
+	}
 	n := 1600
 	nFree := 320
 	if r.Tier == "thorough" {
